@@ -16,6 +16,7 @@ CONSTANTS
   CrashSet <- OnlyC
   StopSet <- SetB
   Sync = TRUE
+  TrackAge = TRUE
 INVARIANTS TypeOK Converged LearnsLive ForgetsDead PeerForgotten PeerLearnt SelfListed PeriodRestored NoDuplicateAddr ChannelSane
 PROPERTIES CallbackIffChange NoResurrection
 VIEW View
